@@ -138,6 +138,13 @@ func anchorScenario(o anchorOpts) *Scenario {
 			}, Enabled: func(m *model.State, _ map[string]int) bool { return !m.Grants["W1|O|"+model.WrkPur] }},
 			purAct("exec(O,wpur(W1,#1,1))", model.WrkPur, "W1", 1, 1, "O"),
 			purAct("exec(O,bpur(W1,#1,1))", model.BcnPur, "W1", 1, 1, "O"),
+			// purchases that never happen: one only simulated, one rolled back with its transaction
+			Action{Name: "sim(wpur(W1,#1,2);bpur(W1,#1,2))", Dt: time.Millisecond, Sim: func(m *model.State) []model.Tx {
+				return []model.Tx{{Msgs: []model.Msg{{Kind: model.WrkPur, From: "W1", ID: 1, N: 2}}, Fee: fee(2 * m.Wrk.P.FeePur)}, {Msgs: []model.Msg{{Kind: model.BcnPur, From: "W1", ID: 1, N: 2}}, Fee: fee(2 * m.Bcn.P.FeePur)}}
+			}},
+			Action{Name: "wpur(W1,#1,1)+bpur(W1,#1,1)+fail", Dt: time.Millisecond, Txs: func(m *model.State) []model.Tx {
+				return []model.Tx{{Msgs: []model.Msg{{Kind: model.WrkPur, From: "W1", ID: 1, N: 1}, {Kind: model.BcnPur, From: "W1", ID: 1, N: 1}, {Kind: model.BankSend, From: "W1", To: model.ModStr, Den: mc.Nund, Amt: "1"}}, Fee: fee(m.Wrk.P.FeePur + m.Bcn.P.FeePur)}}
+			}},
 			purAct("exec(O,wpur(W1,#1,2^64-1))", model.WrkPur, "W1", 1, maxU64, "O"),
 			purAct("exec(O,wpur(W1,#1,2^64-2))", model.WrkPur, "W1", 1, maxU64-1, "O"),
 			purAct("exec(O,bpur(W1,#1,2^64-1))", model.BcnPur, "W1", 1, maxU64, "O"),
@@ -181,6 +188,11 @@ func anchorScenario(o anchorOpts) *Scenario {
 				return []model.Tx{{Msgs: []model.Msg{{Kind: model.WrkReg, From: "W1", S: wIdent("x")}, {Kind: model.WrkRec, From: "W1", ID: m.Wrk.NextID, H: 1, S: []string{"0xrolled-back", "", "", "", ""}}, failSend}, Fee: fee(m.Wrk.P.FeeReg + m.Wrk.P.FeeRec)}}
 			}, Enabled: func(m *model.State, _ map[string]int) bool { return len(m.Wrk.Ents) < maxEnts }},
 		)
+		add(Action{Name: "sim(breg+brec(next);wreg+wrec(next))(W2)", Dt: time.Millisecond, Sim: func(m *model.State) []model.Tx {
+			return []model.Tx{
+				{Msgs: []model.Msg{{Kind: model.BcnReg, From: "W2", S: bIdent("s")}, {Kind: model.BcnRec, From: "W2", ID: m.Bcn.NextID, S: []string{"0xsim"}, T: 1_600_000_000}}, Fee: fee(m.Bcn.P.FeeReg + m.Bcn.P.FeeRec)},
+				{Msgs: []model.Msg{{Kind: model.WrkReg, From: "W2", S: wIdent("s")}, {Kind: model.WrkRec, From: "W2", ID: m.Wrk.NextID, H: 1, S: []string{"0xsim", "", "", "", ""}}}, Fee: fee(m.Wrk.P.FeeReg + m.Wrk.P.FeeRec)}}
+		}})
 		for _, sg := range []string{"W1", "W2", "O"} {
 			for _, id := range []uint64{1, 2, 3, 7} {
 				add(wrecAct(fmt.Sprintf("wrec(%s,#%d,next)", sg, id), sg, id, next))
